@@ -39,11 +39,23 @@ CLAIMED = {
             "longest-length-form priority and rejection of long/long long/long double (R2), the `%%` escape (R3), char promotion (R4) and that each of the 2025 conversion tokens "
             "flag x width x precision x conversion is matched whole with the right capture (R5). Register/stack placement of the parameters is not decided.",
             "3/C20", "regex crate = leftmost-first semantics over regex-syntax HIR"),
+    "C21": ("serde struct definitions (compiler item table) matched against the shipped JSON configuration; resolved call-graph reachability of unwraps of optional analysis results vs. the prerequisite tables read from THIR; statement-order analysis; argument provenance of CweWarning::new",
+            "Decides the contracts around the pipeline that a run needs in order to complete and print well-formed output: every check's configuration struct fits config.json/lkm_config.json (R1); every check "
+            "that unwraps pointer-inference/function-signature/string-abstraction results is declared in run_with_ghidra's tables and the analyses are computed in dependency order (R2); warnings are sorted "
+            "after the last append and before printing, JSON serialises the whole vector, --quiet empties logs (R3); every warning carries name and version of the emitting check (R4). General panic freedom "
+            "of the analyses is not decided.",
+            "3/C21", ""),
     "C22": ("item-table enumeration of CweModule statics vs. get_modules(); if/else-if chain and retain-predicate normal forms in run_with_ghidra with constants resolved to registry values; statement-order analysis on the top-level sequence",
             "Decides the selection formula: registry completeness/uniqueness and module listing before any filter (R1); partial > kernel-module > default chain with exact predicates (default removes exactly "
             "cwe_78::CWE_MODULE.name, LKM keeps exactly MODULES_LKM), no other mutation of the module list, every remaining module run once with config[module.name] (R2); partial filter by full-name equality with "
             "panic on unknown names (R3). Which warnings a selected check emits is not decided.",
             "3/C22", ""),
+    "C25": ("statement-order analysis (Terminate before join); channel-end provenance in spawn(); classification of every exit of the receive loop by match arm / loop condition; match table over LogThreadMsg with the container operation per arm; container data flow into the result",
+            "Decides the channel protocol from which delivery follows given a FIFO channel: Terminate is sent unconditionally before join on the channel handed out by get_msg_sender, the channel is unbounded "
+            "and its receiver goes to the collector (R1); the collector uses blocking recv and leaves its loop only on Terminate/disconnect, skipping nothing (R2); address-less logs are pushed in order, located "
+            "logs and warnings stored with last-wins insert by address, no container is reordered/pruned and all reach the result (R3); CWE476 drains its private channel after all computations (R4). "
+            "Thread schedules are not explored.",
+            "3/C25", "crossbeam_channel::unbounded is a linearizable FIFO channel"),
 }
 
 NOT_APPLICABLE = {
